@@ -18,6 +18,7 @@ ops (one history = everything since the last `reset`):
     | editpost <name28> | crosspost <name28> | dir-dump                            (request layer on one board's .DIR)
   reset-pw <hex|absent> | pw <update|passwd|email> <uid> <hex> | pwq <whole|passwd|level> <uid>   (.PASSWDS accessors of cmbbs)
   pwcu <uid> <userid13hex> <shm money> | pw-money <uid>=<money>,…   (session read-modify-write; concurrent money batch)
+  pw-store <uid> <money> <perm>   (load; acknowledged money modify; whole-record store of the earlier copy)
 Mutating ops answer `<result> <state>` with state = `absent` or `<length>:<fnv1a-64 of the bytes>`.
 -/
 
@@ -191,6 +192,12 @@ def stepC05 (st : St) (ws : List String) : St × String :=
       else
         let (fs, _) := pwcuModify st.pw uid nm money
         ({ st with pw := fs }, showState fs)
+    | _, _, _ => (st, "bad-op")
+  | ["pw-store", u, m, pm] =>
+    match parseIntIn u (-2147483648) 2147483647, parseIntIn m (-2147483648) 2147483647, parseIntIn pm 0 4294967295 with
+    | some uid, some money, some perm =>
+      let fs := storeEarlierCopy st.pw uid money perm.toNat
+      ({ st with pw := fs }, showState fs)
     | _, _, _ => (st, "bad-op")
   | ["pw-money", l] =>
     let parts := (l.splitOn ",").map (fun p => p.splitOn "=")
